@@ -277,6 +277,73 @@ def check_lagoffset(c):
     return len(pairs)
 
 
+# The comparison offsets the layer documents (rows of the queried granularity per comparison type).  For a type at its own
+# granularity these are calendar-exact (C17_offsets_exact); the others are the documented approximations (a month = 30 days = 4 weeks,
+# a quarter = 90 days = 13 weeks, a year = 365 days = 52 weeks) and DEFINE "t minus the comparison offset" (lenient reading, DESIGN C17).
+REF_OFFSETS = {"dod": {"day": 1, "week": 1, "month": 1, "quarter": 1, "year": 1},
+               "wow": {"day": 7, "week": 1, "month": 1, "quarter": 1, "year": 1},
+               "mom": {"day": 30, "week": 4, "month": 1, "quarter": 1, "year": 1},
+               "qoq": {"day": 90, "week": 13, "month": 3, "quarter": 1, "year": 1},
+               "yoy": {"day": 365, "week": 52, "month": 12, "quarter": 4, "year": 1},
+               "prior_period": {"day": 1, "week": 1, "month": 1, "quarter": 1, "year": 1}}
+
+
+def offset_cell(ctype, gran, calc="difference"):
+    """One long gap-free series (comparison offset + 3 periods, two categories) through the real code: the period-over-period column
+    must equal base(t) - base(t - offset) within each category, from the implementation's own base column.  -> (ok, detail)"""
+    from sidemantic import Dimension, Metric, Model
+    k = REF_OFFSETS[ctype][gran]
+    n = k + 3
+    L = dbutil.fresh_layer()
+    L.conn.execute("create table t(id bigint, ts timestamp, cat varchar, v bigint)")
+    step = {"day": "INTERVAL 1 DAY", "week": "INTERVAL 7 DAY", "month": "INTERVAL 1 MONTH", "quarter": "INTERVAL 3 MONTH", "year": "INTERVAL 1 YEAR"}[gran]
+    L.conn.execute("insert into t select i * 2 + j, TIMESTAMP '2019-01-07 10:00:00' + i * %s, ['a', 'b'][j + 1], (i * 37 + j * 11) %% 101 + i from range(%d) r(i), range(2) s(j)" % (step, n))
+    L.add_model(Model(name="t", table="t", primary_key="id",
+                      dimensions=[Dimension(name="ts", type="time", granularity=gran, sql="ts"), Dimension(name="cat", type="categorical")],
+                      metrics=[Metric(name="tv", agg="sum", sql="v"),
+                               Metric(name="m0", type="time_comparison", base_metric="t.tv", comparison_type=ctype, calculation=calc)]))
+    sql = L.compile(metrics=["t.tv", "t.m0"], dimensions=["t.ts__%s" % gran, "t.cat"])
+    cur = L.conn.execute(sql)
+    cols = [d[0] for d in cur.description]
+    rows = cur.fetchall()
+    it, ic, iv, im = cols.index("ts__%s" % gran), cols.index("cat"), cols.index("tv"), (cols.index("m0") if "m0" in cols else cols.index("t.m0"))
+    bad = []
+    for cat in ("a", "b"):
+        ser = sorted((r for r in rows if r[ic] == cat), key=lambda r: r[it])
+        if len(ser) != n:
+            return False, "series of %d periods came back as %d rows" % (n, len(ser))
+        for i, r in enumerate(ser):
+            want = None if i < k else ser[i][iv] - ser[i - k][iv]
+            got = r[im]
+            if (want is None) != (got is None) or (want is not None and abs(float(got) - float(want)) > 1e-9):
+                bad.append((cat, str(r[it]), None if got is None else float(got), want))
+    return not bad, {"offset": k, "periods": n, "mismatches": bad[:4], "sql": sql[-700:]}
+
+
+def offset_cells(c):
+    """every comparison type x granularity cell on a series long enough to observe its offset (the random series are too short for
+    offsets such as 13 weeks, 12 months or 365 days), plus the table the code computes against the documented one"""
+    from sidemantic.sql.generator import SQLGenerator
+    from sidemantic.core.semantic_graph import SemanticGraph
+    gen = SQLGenerator(SemanticGraph())
+    cells = [(ct, g) for ct in REF_OFFSETS for g in REF_OFFSETS[ct]]
+    if c.tier == "quick":
+        cells = [x for x in cells if REF_OFFSETS[x[0]][x[1]] <= 100]
+    table_bad = [(ct, g, gen._calculate_lag_offset(ct, g), REF_OFFSETS[ct][g]) for ct in REF_OFFSETS for g in REF_OFFSETS[ct] if gen._calculate_lag_offset(ct, g) != REF_OFFSETS[ct][g]]
+    nbad = 0
+    for ct, g in cells:
+        try:
+            ok, detail = offset_cell(ct, g)
+        except Exception as e:
+            ok, detail = False, {"error": str(e)[:300]}
+        if not ok:
+            nbad += 1
+            c.violation("a %s comparison at %s granularity is not base(t) - base(t - %d periods)" % (ct, g, REF_OFFSETS[ct][g]), {"kind": "offset_cell", "ctype": ct, "gran": g, "detail": detail})
+    c.obligation("oracle: period-over-period columns on %d long gap-free series (one per comparison type x granularity, offset + 3 periods, two categories) == base(t) - base(t - offset); "
+                 "_calculate_lag_offset == the documented offsets on all 30 cells" % len(cells), nbad == 0 and not table_bad, "correspondence", repr(table_bad[:4]))
+    return len(cells)
+
+
 def run(c):
     c.trusted += ["translator/gen_lagoffset.py (fail-closed skeleton match of _calculate_lag_offset; validated on the 10x9 name domain each run)",
                   "modelled, not verified: Model/Window.v (SQL window semantics and the generator's window clauses) is hand-written; tied to generator.py + DuckDB by executing the same series",
@@ -297,6 +364,10 @@ def run(c):
             npairs = check_lagoffset(c)
         except Exception as e:
             c.obligation("translator validation", False, "translator", repr(e)[-800:])
+    try:
+        npairs += offset_cells(c)
+    except Exception as e:
+        c.obligation("oracle: long series per comparison type x granularity", False, "correspondence", repr(e)[-800:])
     n = 160 if c.tier == "quick" else 700
     cases = corpus_cases() + [gen_case(c.rng, c.tier) for _ in range(n)]
     terms, index = [], []
@@ -373,6 +444,10 @@ def corpus_cases():
 
 def replay(path):
     body = json.load(open(path))
+    if body["replay"].get("kind") == "offset_cell":
+        ok, detail = offset_cell(body["replay"]["ctype"], body["replay"]["gran"])
+        print(json.dumps(detail, default=str, indent=1)[:2500])
+        return 0 if ok else 1
     case = body["replay"]["case"]
     case["rows"] = [tuple(r) for r in case["rows"]]
     impl, sql = real(case)
